@@ -26,6 +26,7 @@ func init() {
 			{"C20.raw-storage", "a chunk's stored bytes are passed on unconverted only where the converters match", 1, func(c *Ctx) { c.rawStorageGuarded() }},
 			{"C20.converters-equal", "Converters.equal answers true only for lists of equal length (it licenses passing stored bytes on)", 2, c14ConvertersEqual},
 			{"C20.compress-api", "Compress/Decompress present with the expected signatures", 2, c20CompressAPI},
+			{"C20.id-parse-exact", "a file name parses as a chunk id only if it is exactly 64 hex digits", 1, c20IDParseExact},
 			{"C20.options-from-config", "every store built in cmd/desync gets its options (incl. the storage format) from the config entry of its location", 12, func(c *Ctx) { c.storeOptionsFromConfig() }},
 		},
 	})
@@ -277,5 +278,97 @@ func c20CompressAPI(c *Ctx) {
 	}
 	if ctors < 2 {
 		c.bad("zstd:constructors", token.NoPos, "found %d zstd constructor call(s), expected the shared encoder and decoder", ctors)
+	}
+}
+
+// c20IDParseExact: the uncompressed chunk extension is the empty string, so in an uncompressed
+// store the only thing that keeps "<id>.cacnk", temp files and foreign files out of Verify and
+// Prune is that their names do not parse as a chunk id.  ChunkIDFromString must therefore accept
+// exactly 64 hex digits: every nil-error return lies behind the equal edge of a comparison of the
+// length of the whole input (64) or of its whole decoded form (32) - "at least 64, rest ignored"
+// is not enough.
+func c20IDParseExact(c *Ctx) {
+	fn := c.mustFn("ChunkIDFromString")
+	slice := c.mustFn("ChunkIDFromSlice")
+	if fn == nil || slice == nil {
+		return
+	}
+	param := fn.Params[0]
+	wholeInput := func(st *State, v ssa.Value) (int64, bool) {
+		// len(v) where v is the parameter (64) or hex.DecodeString(parameter) (32), possibly through
+		// conversions and the parameter of the inlined ChunkIDFromSlice
+		v = st.ArgOf(v)
+		for _, l := range leaves(v) {
+			l = st.ArgOf(l)
+			if isParam(l, param) {
+				return 64, true
+			}
+			if call, idx := callOf(l); call != nil && idx == 0 && callee(call) == "encoding/hex.DecodeString" {
+				for _, a := range leaves(call.Call.Args[0]) {
+					if isParam(st.ArgOf(a), param) {
+						return 32, true
+					}
+				}
+			}
+		}
+		return 0, false
+	}
+	var bad []string
+	okPaths := 0
+	h := &Hooks{MaxVisits: 2}
+	h.Inline = func(st *State, call *ssa.Call) (*ssa.Function, bool) {
+		if c.staticFn(call) == slice {
+			return slice, false
+		}
+		return nil, false
+	}
+	h.Fork = func(st *State, call *ssa.Call) []map[int]Val {
+		if strings.HasPrefix(callee(call), "encoding/hex.Decode") {
+			ei := errResultIndex(call)
+			return []map[int]Val{{ei: {N: NNil, Class: ClsNil}}, {ei: {N: NNon, Class: ClsOther}}}
+		}
+		return nil
+	}
+	h.Branch = func(st *State, iff *ssa.If, taken bool) {
+		cm, truth, ok := cmpOf(iff.Cond)
+		if !ok || (cm.op != token.EQL && cm.op != token.NEQ) {
+			return
+		}
+		equal := (cm.op == token.EQL) == (taken == truth)
+		if !equal {
+			return
+		}
+		for _, pr := range [][2]ssa.Value{{cm.x, cm.y}, {cm.y, cm.x}} {
+			lc := lenCallOf(pr[0])
+			if lc == nil {
+				continue
+			}
+			want, isWhole := wholeInput(st, lc.Call.Args[0])
+			if !isWhole {
+				continue
+			}
+			if k := st.Eval(pr[1]); k.Int != nil && *k.Int == want {
+				st.Flags["exact"] = 1
+			}
+		}
+	}
+	h.Return = func(st *State, ret *ssa.Return, results []Val) {
+		if len(results) != 2 || results[1].N != NNil {
+			return
+		}
+		okPaths++
+		if st.Flags["exact"] == 0 {
+			bad = append(bad, fmt.Sprintf("return at %s accepts the input without having found its length equal to 64 hex digits (32 bytes) (trail %s)", c.pos(ret.Pos()), strings.Join(st.Trail, ">")))
+		}
+	}
+	Explore(fn, fn.Blocks[0], 0, nil, NewState(), h)
+	c.paths += h.Paths
+	switch {
+	case len(bad) > 0:
+		c.bad("ChunkIDFromString:exact-length", fn.Pos(), "a name that merely starts with a chunk id parses as that id: %s; in an uncompressed store (extension \"\") Verify and Prune then treat <id>.cacnk and other foreign files as chunks", bad[0])
+	case okPaths == 0:
+		c.bad("ChunkIDFromString:exact-length", fn.Pos(), "no accepting path found")
+	default:
+		c.ok("ChunkIDFromString:exact-length", fn.Pos(), "%d accepting path(s), each behind len == 64 (or 32 decoded bytes)", okPaths)
 	}
 }
